@@ -991,6 +991,9 @@ def _read_asn1_integer(
         hint=hint,
     )
     b_int = bytearray(raw_int)
+    if not b_int:
+        hint_str = f" for {hint}" if hint else ""
+        raise ValueError(f"Invalid ASN.1 INTEGER value{hint_str}: expecting at least 1 octet")
 
     is_negative = b_int[0] & 0b10000000
     if is_negative:
@@ -1001,9 +1004,8 @@ def _read_asn1_integer(
         # Coverage is skipped because branch will not occur with no loop
         for i in range(len(b_int) - 1, -1, -1):  # pragma: nocover
             if b_int[i] == 0xFF:
-                b_int[i - 1] += 1
+                # Carry over to the next most significant octet.
                 b_int[i] = 0
-                break
 
             else:
                 b_int[i] += 1
